@@ -68,7 +68,7 @@ def row_equal(a, b, integer):
     if a.dtype == object or b.dtype == object:
         return all((x is None and y is None) or (isinstance(x, float) and isinstance(y, float) and x != x and y != y)
                    or x == y for x, y in zip(a.ravel().tolist(), b.ravel().tolist()))
-    if integer:
+    if integer or a.dtype.kind in "USb" or b.dtype.kind in "USb":
         return bool(numpy.array_equal(a, b))
     # scikit-learn's expanded Euclidean distance and BLAS kernels round differently for different batch sizes
     # (observed 6e-9 relative in KMeans.transform): that is not a dependence on the other rows' values
@@ -109,6 +109,8 @@ def label_variants(D):
         out.append(("labels -1/+1/5", dict(D, y=numpy.array([table[v] for v in y.tolist()]))))
         out.append(("float labels -1./2./7.", dict(D, y=numpy.array([float(table[v]) * 2 + 1 if table[v] > 0 else -1.0
                                                                      for v in y.tolist()]))))
+        names = {v: t for v, t in zip(sorted(numpy.unique(y).tolist()), ("no", "yes", "perhaps"))}
+        out.append(("string labels of unequal length", dict(D, y=numpy.array([names[v] for v in y.tolist()]))))
     return out
 
 
@@ -143,6 +145,7 @@ def run_rows(case, ctx):
                     Q = take(Q, list(range(n)) + [0, 1, 1])   # exact duplicates
                     n = nrows(Q)
                 marg = margins(spec, est, Q)
+                unsupported = False
                 for m in spec.rowwise:
                     if m == "predict_leaves" and not hasattr(est, "leaves_index_"):
                         continue
@@ -150,6 +153,10 @@ def run_rows(case, ctx):
                     try:
                         full = spec.outputs(est, Q, [m])[m]
                     except Exception as e:
+                        if lname != "as-is":
+                            ctx.excluded("label set not supported by this estimator")   # e.g. predict casts to int32
+                            unsupported = True
+                            continue
                         ctx.violation(K + "%s/raised/%s" % (m, type(e).__name__), "batch call raised: %s" % str(e)[:150],
                                       cfg=cfg)
                         continue
@@ -251,6 +258,8 @@ def run_rows(case, ctx):
                                       cfg=c2)
                     if len(numpy.unique(numpy.asarray(full).astype(str), axis=0)) >= 2:
                         ctx.nontriv(spec.name, vi, dname, lname, m)
+                if unsupported:
+                    continue
                 # ---- reading a property / calling an accessor is an observation: it changes no later answer
                 try:
                     o_before = spec.outputs(est, Q, list(spec.methods))
